@@ -1036,8 +1036,15 @@ func main() {
 			// the Coq budget is spread over the documents (what one document leaves unused carries over)
 			allowed := (i+1)*coqBudget/nDocs - coqUsed
 			withCoq := allowed > 0 && (e.class != "must-reject" || j%3 == i%3 || strings.HasPrefix(e.name, "opt"))
+			// edits of the STRUCTURE of the proof member (wrapped, dropped, string, sets with forged / foreign entries,
+			// transplants) are few and stand last in the list: they go through the model whatever the budget says
+			// (on top of the budget: the other kinds of edits keep their share)
 			if withCoq {
 				coqUsed++
+			}
+
+			if strings.HasPrefix(e.name, "proof") {
+				withCoq = true
 			}
 
 			cd := caseDesc{Kind: kind, Suite: sd.name, Repr: reprName(sd.repr), Edit: e.name, Class: e.class, BadKey: e.badKey,
